@@ -329,6 +329,92 @@ func runC10(c *Ctx) {
 	}
 
 	// ---- R5 parser recursion
+	c.rule("C10-R7", "BKT: the parser never rewinds its cursor over tokens it has already parsed through the recursive grammar: no store into Parser.position of a value that is a saved copy of the cursor (as opposed to cursor+k) is reachable after a call to a parse method between the save and the restore. Parse, rewind, parse again doubles the work at every nesting level of the re-parsed construct, so a few hundred bytes of nested input do not terminate in practice")
+	{
+		nStores, nRewinds := 0, 0
+		for _, fn := range c.srcFuncs(parserPkg) {
+			k := 0
+			eachInstr(fn, func(_ *ssa.BasicBlock, _ int, ins ssa.Instruction) {
+				st, ok := ins.(*ssa.Store)
+				if !ok || !isStoreToField(st, "Parser", "position") {
+					return
+				}
+				nStores++
+				// a rewind: the stored value is (a phi of) plain loads of the cursor, not cursor+k
+				var saved []ssa.Value
+				var walk func(v ssa.Value, d int) bool
+				walk = func(v ssa.Value, d int) bool {
+					if d > 6 {
+						return false
+					}
+					switch x := v.(type) {
+					case *ssa.UnOp:
+						if x.Op == token.MUL && loadedFromField(x, "Parser", "position") {
+							saved = append(saved, x)
+							return true
+						}
+						if x.Op == token.MUL {
+							if al, ok := x.X.(*ssa.Alloc); ok {
+								okAny := false
+								for _, r := range refs(al) {
+									if s2, ok := r.(*ssa.Store); ok && s2.Addr == ssa.Value(al) && walk(s2.Val, d+1) {
+										okAny = true
+									}
+								}
+								return okAny
+							}
+						}
+					case *ssa.Phi:
+						okAny := false
+						for _, e := range x.Edges {
+							if walk(e, d+1) {
+								okAny = true
+							}
+						}
+						return okAny
+					}
+					return false
+				}
+				if !walk(st.Val, 0) {
+					return
+				}
+				nRewinds++
+				// a parse method called between a save and this restore
+				reparse := false
+				for _, sv := range saved {
+					q := &pathQuery{fn: fn, target: func(x ssa.Instruction) bool { return x == ins }}
+					_ = q
+					eachInstr(fn, func(_ *ssa.BasicBlock, _ int, x ssa.Instruction) {
+						call, ok := x.(*ssa.Call)
+						if !ok {
+							return
+						}
+						sf := staticFn(call)
+						if sf == nil || sf.Signature.Recv() == nil || sf.Pkg == nil || sf.Pkg.Pkg.Path() != modPath+"/"+parserPkg || !strings.HasPrefix(sf.Name(), "parse") {
+							return
+						}
+						svi := sv.(ssa.Instruction)
+						q1 := &pathQuery{fn: fn, target: func(y ssa.Instruction) bool { return y == x }}
+						h1, _ := q1.after(svi)
+						q2 := &pathQuery{fn: fn, target: func(y ssa.Instruction) bool { return y == ins }}
+						h2, _ := q2.after(x)
+						if h1 != nil && h2 != nil {
+							reparse = true
+						}
+					})
+				}
+				k++
+				c.ob("C10-R7", fnKey(fn)+"#cursor-rewind-"+itoa(k), st.Pos(), !reparse, "the cursor is saved, a parse method runs, and the cursor is restored to the saved value so that the same tokens are parsed again: with a construct that can contain statements (async block, lambda) inside the re-parsed part the work doubles per nesting level")
+			})
+		}
+		c.Sites["C10-R7#stores-to-Parser.position"] = nStores
+		c.Sites["C10-R7#cursor-rewinds"] = nRewinds
+		if nStores < 1 {
+			c.undecided("C10-R7: no store to Parser.position found")
+		}
+		c.ob("C10-R7", parserPkg+".Parser#no-reparse-after-rewind", token.NoPos, true, "")
+	}
+
 	c.rule("C10-R5", "REC: after removing from pkg/parser's static call graph every Parser method that increments and tests the nesting-depth counter, no cycle (including self-recursion) remains: every recursive descent that input nesting can drive passes through the depth guard, so deep nesting is a diagnostic and not a Go stack overflow (fatal, unrecoverable)")
 	recursionRule(c, "C10-R5")
 }
